@@ -205,7 +205,7 @@ class Ref:
     """Environment-based evaluation; `kludge` reproduces the known trailing-newline deviation (finding C04/#22)."""
 
     def __init__(self, lib, kludge=False, depth_limit=40, trim_first=None, switch_default_wins=False,
-                 opts=None, leak=False, resplit=None):
+                 opts=None, leak=False, resplit=None, switch_link_eq=False):
         # leak: variant describing a known deviation -- the calls inside the arguments of an unexpanded parser
         # function stay placeholders; when such an argument value is substituted into a template body they are
         # expanded there (late), otherwise they are printed as written
@@ -214,6 +214,9 @@ class Ref:
         # calls of a template body BEFORE they are split at '=', so a value containing '=' turns a positional argument
         # into a named one
         self.resplit = leak if resplit is None else resplit
+        # switch_link_eq: variant describing a known deviation -- inside a template body links have already been turned into
+        # text when #switch looks for '=' in its cases, so an '=' inside a link splits the case
+        self.switch_link_eq = switch_link_eq
         self._top = None          # written name of the template whose body is being scanned at its top level
         self.deferred = []
         self.lib = {}
@@ -318,6 +321,20 @@ class Ref:
         if len(args) >= 2:
             return self.ev(args[1], env, depth, in_body)
         return "{{{" + str(k) + "}}}"
+
+    def flatten_links(self, a):
+        out = []
+        for it in a:
+            if not isinstance(it, int) and it[0] == "L":
+                out += [91, 91]
+                for j, x in enumerate(it[1]):
+                    if j:
+                        out.append(124)
+                    out += self.flatten_links(x)
+                out += [93, 93]
+            else:
+                out.append(it)
+        return out
 
     def defer(self, a):
         out = []
@@ -490,6 +507,8 @@ class Ref:
         last = None
         for a in args[1:]:
             sp = None
+            if self.switch_link_eq and in_body:
+                a = self.flatten_links(a)
             for i, it in enumerate(a):
                 if it == 60:
                     break
